@@ -368,7 +368,7 @@ def run_job(job: Job, workers=None, budget_s=None, split_target=None) -> Result:
     """Explore `job` exhaustively using `workers` processes."""
     global _JOB, _DEADLINE, ENG
     t0 = time.time()
-    workers = workers or int(os.environ.get("VERIF_WORKERS", "0")) or min(16, os.cpu_count() or 1)
+    workers = workers or int(os.environ.get("VERIF_WORKERS", "0")) or min(8, os.cpu_count() or 1)
     _JOB = job
     _DEADLINE = (t0 + budget_s) if budget_s else None
     if workers <= 1:
